@@ -1,0 +1,106 @@
+//go:build verif
+
+// Machine-checked contracts for the tree-walking evaluator (evaluator.go).
+// Comment-only file, read by /verif/bin/evyvc (see /verif/DESIGN.md).
+
+package evaluator
+
+// evalFrame: heap classes no evaluation step ever changes for objects that already exist:
+// the AST and tokens, the shape of the scope chain, the evaluator's wiring, and the payload of
+// basic values (basic values are immutable once built: variables change by rebinding only).
+//@ frameset evalFrame = parser., lexer., evaluator.scope.outer, evaluator.scope.values, evaluator.Evaluator.global, evaluator.Evaluator.builtins, evaluator.Evaluator.yielder, evaluator.numVal.V, evaluator.stringVal.V, evaluator.boolVal.V, evaluator.anyVal.T, evaluator.Error, elem:parser.Node, elem:*parser.ConditionalBlock, elem:*parser.Var
+
+//@ typeinv Evaluator: self.scope != nil && self.global != nil
+
+// wf(n): shape of the syntax tree below n as the parser builds it (children present where the
+// grammar requires them). Assumed of every tree handed to the evaluator; its consequences per node
+// kind are the axioms below (assumptions about parser output, not proved here).
+//@ pure wf(n parser.Node) bool
+//@ pure isBuiltinName(name string) bool
+//@ global forall(d, *parser.Decl, wf(parser.Node(d)) ==> d != nil && d.Var != nil && d.Value != nil && wf(d.Value))
+//@ global forall(d, *parser.TypedDeclStmt, wf(parser.Node(d)) ==> d != nil && d.Decl != nil && wf(parser.Node(d.Decl)))
+//@ global forall(d, *parser.InferredDeclStmt, wf(parser.Node(d)) ==> d != nil && d.Decl != nil && wf(parser.Node(d.Decl)))
+//@ global forall(a, *parser.AssignmentStmt, wf(parser.Node(a)) ==> a != nil && a.Target != nil && wf(a.Target) && a.Value != nil && wf(a.Value))
+//@ global forall(a, *parser.Any, wf(parser.Node(a)) ==> a != nil && a.Value != nil && wf(a.Value))
+//@ global forall(g, *parser.GroupExpression, wf(parser.Node(g)) ==> g != nil && g.Expr != nil && wf(g.Expr))
+//@ global forall(r, *parser.ReturnStmt, wf(parser.Node(r)) ==> r != nil && (r.Value != nil ==> wf(r.Value)))
+//@ global forall(b, *parser.BlockStatement, wf(parser.Node(b)) ==> b != nil && forall(i, int, 0 <= i && i < len(b.Statements) ==> b.Statements[i] != nil && wf(b.Statements[i])))
+//@ global forall(p, *parser.Program, wf(parser.Node(p)) ==> p != nil && forall(i, int, 0 <= i && i < len(p.Statements) ==> p.Statements[i] != nil && wf(p.Statements[i])))
+//@ global forall(i, *parser.IfStmt, wf(parser.Node(i)) ==> i != nil && i.IfBlock != nil && wf(parser.Node(i.IfBlock)) && (i.Else != nil ==> wf(parser.Node(i.Else))) && forall(j, int, 0 <= j && j < len(i.ElseIfBlocks) ==> i.ElseIfBlocks[j] != nil && wf(parser.Node(i.ElseIfBlocks[j]))))
+//@ global forall(c, *parser.ConditionalBlock, wf(parser.Node(c)) ==> c != nil && c.Condition != nil && wf(c.Condition) && c.Block != nil && wf(parser.Node(c.Block)))
+//@ global forall(w, *parser.WhileStmt, wf(parser.Node(w)) ==> w != nil && w.Condition != nil && wf(w.Condition) && w.Block != nil && wf(parser.Node(w.Block)))
+//@ global forall(f, *parser.ForStmt, wf(parser.Node(f)) ==> f != nil && f.Range != nil && wf(f.Range) && f.Block != nil && wf(parser.Node(f.Block)))
+//@ global forall(u, *parser.UnaryExpression, wf(parser.Node(u)) ==> u != nil && u.Right != nil && wf(u.Right))
+//@ global forall(b, *parser.BinaryExpression, wf(parser.Node(b)) ==> b != nil && b.Left != nil && wf(b.Left) && b.Right != nil && wf(b.Right))
+//@ global forall(x, *parser.IndexExpression, wf(parser.Node(x)) ==> x != nil && x.Left != nil && wf(x.Left) && x.Index != nil && wf(x.Index))
+//@ global forall(x, *parser.SliceExpression, wf(parser.Node(x)) ==> x != nil && x.Left != nil && wf(x.Left) && (x.Start != nil ==> wf(x.Start)) && (x.End != nil ==> wf(x.End)))
+//@ global forall(x, *parser.DotExpression, wf(parser.Node(x)) ==> x != nil && x.Left != nil && wf(x.Left))
+//@ global forall(x, *parser.TypeAssertion, wf(parser.Node(x)) ==> x != nil && x.Left != nil && wf(x.Left) && x.T != nil)
+//@ global forall(a, *parser.ArrayLiteral, wf(parser.Node(a)) ==> a != nil && forall(i, int, 0 <= i && i < len(a.Elements) ==> a.Elements[i] != nil && wf(a.Elements[i])))
+//@ global forall(c, *parser.FuncCall, wf(parser.Node(c)) ==> c != nil && forall(i, int, 0 <= i && i < len(c.Arguments) ==> c.Arguments[i] != nil && wf(c.Arguments[i])))
+//@ global forall(c, *parser.FuncCallStmt, wf(parser.Node(c)) ==> c != nil && c.FuncCall != nil && wf(parser.Node(c.FuncCall)))
+//@ global forall(v, *parser.Var, wf(parser.Node(v)) ==> v != nil)
+
+//@ iface (y Yielder) Yield()
+//@   trusted
+//@   modifies class evaluator.Evaluator.Stopped
+
+//@ func (e *Evaluator) eval(node parser.Node) (r value, err error)
+//@   props C10 C14 C02 C09
+//@   requires node != nil && wf(node)
+//@   ensures[C14 stopped] old(e.Stopped) ==> err == ErrStopped && r == nil && ncalls("(Yielder).Yield") == 0
+//@   ensures[C14 yields] !old(e.Stopped) && e.yielder != nil ==> ncalls("(Yielder).Yield") >= 1
+//@   ensures[C10 scope-restored] e.scope == old(e.scope)
+//@   ensures[C02 error-no-value] err != nil ==> r == nil
+//@   ensures[C02 value-not-nil-pointer] r != nil ==> ref(r) != 0
+//@   modifies allbut evalFrame
+//@   propagates (*Evaluator).eval (*Evaluator).evalProgram (*Evaluator).evalDecl (*Evaluator).evalAssignment (*Evaluator).evalVar (*Evaluator).evalAny (*Evaluator).evalArrayLiteral (*Evaluator).evalMapLiteral (*Evaluator).evalFunccall (*Evaluator).evalReturn (*Evaluator).evalIf (*Evaluator).evalWhile (*Evaluator).evalFor (*Evaluator).evalBlockStatment (*Evaluator).evalUnaryExpr (*Evaluator).evalBinaryExpr (*Evaluator).evalIndexExpr (*Evaluator).evalSliceExpr (*Evaluator).evalDotExpr (*Evaluator).evalTypeAssertion
+
+//@ func (e *Evaluator) evalStatments(statements []parser.Node) (r value, err error)
+//@   props C10 C14
+//@   requires forall(i, int, 0 <= i && i < len(statements) ==> statements[i] != nil && wf(statements[i]))
+//@   ensures[C10 scope-restored] e.scope == old(e.scope)
+//@   ensures[C10 signal] err == nil && r != nil ==> is(r, *returnVal) || is(r, *breakVal)
+//@   ensures[C02 error-no-value] err != nil ==> r == nil
+//@   modifies allbut evalFrame
+//@   propagates (*Evaluator).eval
+//@   loop 1 invariant e.scope == old(e.scope) && pending() == nil
+
+//@ func (e *Evaluator) evalBlockStatment(block *parser.BlockStatement) (r value, err error)
+//@   props C10 C14
+//@   requires wf(parser.Node(block))
+//@   ensures[C10 scope-restored] e.scope == old(e.scope)
+//@   ensures[C10 signal] err == nil && r != nil ==> is(r, *returnVal) || is(r, *breakVal)
+//@   ensures[C02 error-no-value] err != nil ==> r == nil
+//@   modifies allbut evalFrame
+//@   propagates (*Evaluator).evalStatments
+
+//@ func (e *Evaluator) evalConditionalBlock(condBlock *parser.ConditionalBlock) (r value, ok bool, err error)
+//@   props C10 C14
+//@   requires condBlock != nil && condBlock.Condition != nil && wf(condBlock.Condition) && condBlock.Block != nil && wf(parser.Node(condBlock.Block))
+//@   ensures[C10 scope-restored] e.scope == old(e.scope)
+//@   ensures[C02 error-no-value] err != nil ==> r == nil
+//@   ensures[C10 condition-first] ncalls("(*Evaluator).eval") >= 1 ==> callarg("(*Evaluator).eval", 1, 1) == condBlock.Condition
+//@   ensures[C10 block-iff-true] ok ==> ncalls("(*Evaluator).eval") == 2 && callarg("(*Evaluator).eval", 2, 1) == parser.Node(condBlock.Block) && is(callres("(*Evaluator).eval", 1, 0), *boolVal) && callres("(*Evaluator).eval", 1, 0).(*boolVal).V
+//@   ensures[C10 no-block-if-false] !ok ==> ncalls("(*Evaluator).eval") <= 1
+//@   modifies allbut evalFrame
+//@   propagates (*Evaluator).eval
+
+//@ func (e *Evaluator) evalIf(i *parser.IfStmt) (r value, err error)
+//@   props C10 C14
+//@   requires wf(parser.Node(i))
+//@   ensures[C10 scope-restored] e.scope == old(e.scope)
+//@   ensures[C02 error-no-value] err != nil ==> r == nil
+//@   modifies allbut evalFrame
+//@   propagates (*Evaluator).eval (*Evaluator).evalConditionalBlock
+//@   loop 1 invariant e.scope == old(e.scope) && pending() == nil
+
+//@ func (e *Evaluator) evalWhile(w *parser.WhileStmt) (r value, err error)
+//@   props C10 C14
+//@   requires wf(parser.Node(w))
+//@   ensures[C10 scope-restored] e.scope == old(e.scope)
+//@   ensures[C10 break-stays-inside] !is(r, *breakVal)
+//@   ensures[C02 error-no-value] err != nil ==> r == nil
+//@   modifies allbut evalFrame
+//@   propagates (*Evaluator).evalConditionalBlock
+//@   loop 1 invariant e.scope == old(e.scope) && (err != nil ==> val == nil) && pending() == err
